@@ -134,8 +134,11 @@ func applyPreset(w *model.World, preset string, seed []model.Write) {
 		// offsets 0..16382 occupied: the next two inserts land on 16383 and 16384
 		w.Txn([]model.Act{{Op: "bulk", N: 16383, W: seed}}, false)
 	case "sparse-3":
-		// one row in each of blocks 0, 1, 2 with holes below
-		w.SeedReplay(map[uint32][]model.Write{5: seed, 16384 + 7: seed, 32768 + 9: seed})
+		// one row in each of blocks 0, 1, 2 with holes below; the rows of blocks 0 and 2
+		// sit at the same in-block position (state that a per-block loop fails to
+		// reset shows there), the row of block 1 at another one (a block-relative
+		// offset used as an absolute one lands on a free slot)
+		w.SeedReplay(map[uint32][]model.Write{5: seed, 16384 + 7: seed, 32768 + 5: seed})
 	case "many-distinct":
 		// 200 rows with pairwise distinct values in column v (interning tables and maps
 		// grow past their initial size); every row is value-checked
